@@ -580,10 +580,16 @@ def render_extract(ex, report, vacuity=False):
             out.append(Line(t[pos:], origin))
         else:
             out.append(Line(t, origin))
-        if i == 0 and vacuity and ex.contract:
-            out.append(Line('        proof { assert(false); } // VACUITY-PROBE', ('vspec', ex.vline)))
-        if i == 0 and ex.body_start:
-            out.extend(ex.body_start)
+        if i == 0:
+            # `hide(..)` statements must stay the first statements of a body: the vacuity probe goes after them
+            bs = list(ex.body_start)
+            nh = 0
+            while nh < len(bs) and bs[nh].text.strip().startswith('hide('):
+                nh += 1
+            out.extend(bs[:nh])
+            if vacuity and ex.contract:
+                out.append(Line('        proof { assert(false); } // VACUITY-PROBE', ('vspec', ex.vline)))
+            out.extend(bs[nh:])
         if i in inserts_after:
             out.extend(inserts_after[i])
     return out
